@@ -69,9 +69,9 @@ import (
 
 	abci "github.com/tendermint/tendermint/abci/types"
 	cfg "github.com/tendermint/tendermint/config"
-	"github.com/tendermint/tendermint/evidence"
 	"github.com/tendermint/tendermint/consensus"
 	"github.com/tendermint/tendermint/crypto/ed25519"
+	"github.com/tendermint/tendermint/evidence"
 	vg "github.com/tendermint/tendermint/internal/verifgen"
 	"github.com/tendermint/tendermint/libs/log"
 	mpmock "github.com/tendermint/tendermint/mempool/mock"
@@ -117,13 +117,13 @@ type c13World struct {
 	// evidence.Pool in the BlockExecutor
 	evOf, evIn int64
 	genDoc     *types.GenesisDoc
-	blocks  []*types.Block  // 1..L (index j: height ih+j-1)
-	ids     []types.BlockID // 1..L
-	commits []*types.Commit // commits[j]: every validator signs block j (1..L)
-	states  []sm.State      // states[j]: after block j (0 = genesis)
-	alt     []*types.Block  // alt[j]: valid block of the j-th height with other txs (1..L)
-	bad     []*types.Block  // bad[j]: canonical block j with a wrong AppHash
-	bids    map[int64]types.BlockID
+	blocks     []*types.Block  // 1..L (index j: height ih+j-1)
+	ids        []types.BlockID // 1..L
+	commits    []*types.Commit // commits[j]: every validator signs block j (1..L)
+	states     []sm.State      // states[j]: after block j (0 = genesis)
+	alt        []*types.Block  // alt[j]: valid block of the j-th height with other txs (1..L)
+	bad        []*types.Block  // bad[j]: canonical block j with a wrong AppHash
+	bids       map[int64]types.BlockID
 }
 
 // H is the height of the j-th block, J its inverse, lastH the State.LastBlockHeight after j blocks
@@ -2098,15 +2098,15 @@ func c13GetEvWorlds() []*c13World {
 }
 
 type c13SSResult struct {
-	base, top     int64 // base of the block store, State.LastBlockHeight saved last
-	canon         bool
-	hstopped      int64
-	honestLeft    bool
-	switched      bool
-	hob           c13HandObs
-	next          uint64 // ValidateBlock(saved state, canonical block top+1): 0 nil, 1 the evidence pool lacks the header / validators of the evidence height, 2 other error, 3 not asked
-	nextErr       string
-	peersStopped  []bool
+	base, top    int64 // base of the block store, State.LastBlockHeight saved last
+	canon        bool
+	hstopped     int64
+	honestLeft   bool
+	switched     bool
+	hob          c13HandObs
+	next         uint64 // ValidateBlock(saved state, canonical block top+1): 0 nil, 1 the evidence pool lacks the header / validators of the evidence height, 2 other error, 3 not asked
+	nextErr      string
+	peersStopped []bool
 }
 
 func c13RunSS(w *c13World, snapshot int64, npeers int, r *vg.Rand) *c13SSResult {
@@ -2177,10 +2177,6 @@ LOOP:
 	}
 	// what the node's own BlockExecutor says about the canonical block it should apply next
 	res.next = 3
-	if jn := w.J(res.top) + 1; res.top == 0 {
-		jn = 1
-		_ = jn
-	}
 	jn := int64(1)
 	if res.top > 0 {
 		jn = w.J(res.top) + 1
